@@ -95,6 +95,14 @@ Section C01.
     k_crv k = ja_curve r.
   Proof. exact (ec_curve_gate mac pk_verify ec_verify). Qed.
 
+  (* PS* / RS* / EdDSA: acceptance is the primitive's verdict for the ROW of the algorithm table;
+     for PS* that row fixes MGF1 with the same hash and salt length = digest size
+     (c01_pss_rows_fixed, by computation on the table extracted from /repo) *)
+  Theorem c01_pss_params_fixed : forall r k msg sig,
+    (fam_of r = FPss \/ fam_of r = FRsa \/ fam_of r = FEd) ->
+    alg_verify mac pk_verify ec_verify r k msg sig = Ok true -> pk_verify r (k_id k) msg sig = Ok true.
+  Proof. exact (pk_accept_inv mac pk_verify ec_verify). Qed.
+
   Theorem c01_hmac_accept : forall r k msg sig,
     ja_family r = "HMAC"%string -> alg_verify mac pk_verify ec_verify r k msg sig = Ok true ->
     mac (ja_hash r) (k_id k) msg = Ok sig.
@@ -190,6 +198,9 @@ Theorem c01_jwt_decode_only_signed :
       json_loads (co_payload o) = Ok c /\
       verified mac pk_verify ec_verify (reg15 algs) src (PDict h) (co_hseg o ++ 46 :: co_pseg o) (co_sseg o).
 Proof. exact jwt_decode_only_signed. Qed.
+
+Theorem c01_pss_rows_fixed : forallb pss_row_fixed jws_alg_table = true.
+Proof. exact pss_rows_fixed. Qed.
 
 (* a symmetric key imported from raw octets IS those octets: nothing is stripped, trimmed or
    decoded, so two octet strings that differ anywhere (a leading whitespace octet, a trailing
@@ -312,6 +323,7 @@ Print Assumptions c01_ec_length.
 Print Assumptions c01_ec_accept.
 Print Assumptions c01_ec_curve_gate.
 Print Assumptions c01_hmac_accept.
+Print Assumptions c01_pss_params_fixed.
 Print Assumptions c01_7797_sound.
 Print Assumptions c01_7797_payload_is_verified.
 Print Assumptions c01_b64_only_if_protected_partial.
